@@ -200,7 +200,10 @@ def load_scene(
     try:
         if isinstance(file_obj, dict):
             # we've been passed a dictionary so treat them as keyword arguments
-            loaded = _load_kwargs(file_obj)
+            # keep the keyword arguments we were called with, i.e. `process=False`
+            parsed = deepcopy(kwargs)
+            parsed.update(file_obj)
+            loaded = _load_kwargs(**parsed)
         elif arg.file_type in path_formats():
             # use path loader
             loaded = load_path(
@@ -457,7 +460,13 @@ def _load_kwargs(*args, **kwargs) -> Geometry:
         """
         # if they've been serialized as a dict
         if isinstance(kwargs["vertices"], dict) or isinstance(kwargs["faces"], dict):
-            return Trimesh(**misc.load_dict(kwargs))
+            decoded = misc.load_dict(kwargs)
+            # `load_dict` only returns the array data: keep the
+            # constructor options that were passed along with it
+            for key in ("process", "validate", "merge_tex", "merge_norm"):
+                if key in kwargs and key not in decoded:
+                    decoded[key] = kwargs[key]
+            return Trimesh(**decoded)
         # otherwise just load that puppy
         return Trimesh(**kwargs)
 
